@@ -6,7 +6,7 @@ from pyvc.engine import Engine
 
 META = _pipeline.meta('C18')
 
-DEDUCTIVE = ['vsg.vhdlFile.vhdlFile.vhdlFile.update', 'vsg.vhdlFile.vhdlFile.remove_beginning_of_file_tokens', 'vsg.vhdlFile.extract.tokens.calculate_end_index', 'vsg.vhdlFile.extract.tokens.New.extract_tokens', 'vsg.rules.token_case.token_case._fix_violation']
+DEDUCTIVE = ['vsg.rule_list.rule_list.fix', 'vsg.vhdlFile.vhdlFile.vhdlFile.update_token_map', 'vsg.vhdlFile.vhdlFile.vhdlFile.fix_blank_lines', 'vsg.vhdlFile.vhdlFile.vhdlFile.fix_trailing_whitespace', 'vsg.vhdlFile.extract.utils.get_indexes_of_token_list', 'vsg.vhdlFile.extract.get_tokens_matching.get_tokens_matching', 'vsg.vhdlFile.extract.get_tokens_at_beginning_of_line_matching.get_tokens_at_beginning_of_line_matching', 'vsg.vhdlFile.extract.get_sequence_of_tokens_matching.get_token_indexes', 'vsg.vhdlFile.extract.get_sequence_of_tokens_matching.get_sequence_of_tokens_matching', 'vsg.vhdlFile.vhdlFile.vhdlFile.update', 'vsg.vhdlFile.vhdlFile.remove_beginning_of_file_tokens', 'vsg.vhdlFile.extract.tokens.calculate_end_index', 'vsg.vhdlFile.extract.tokens.New.extract_tokens', 'vsg.rules.token_case.token_case._fix_violation']
 
 
 def run():
@@ -27,4 +27,8 @@ def run():
         if why:
             c.findings.append(Finding("bounded", "update_contract", why, {"scenario_seed": seed, "observed": why, "how_to_rerun": "cd /verif && /venv/bin/python -c 'from bounded import update_contract as u; print(u.one(%d))'" % seed}, "seed=%d" % seed))
             break
+    if c.tier == "thorough":
+        from pyvc.checklib import run_selftest
+
+        run_selftest(c, ["mutants_extract.py"], lambda eng: [q for q in eng.contracts if q.startswith("vsg.vhdlFile.extract.get_") or q == "vsg.vhdlFile.extract.utils.get_indexes_of_token_list"])
     return c.finish({"explanation": META["text"]})
